@@ -16,11 +16,19 @@ func vpWorkFiles(n, depth, maxc, maxContent int) []vpFile {
 	var fs []vpFile
 	for i := 0; i < n; i++ {
 		id := string(rune('0' + i))
-		p := vpPath("f"+id, depth, maxc)
+		mc := maxc
+		if zzvp.Param("asym", 0) == 1 && i == 0 {
+			mc = 1 // only the later files get long components (sibling-name cases need one short and one long name)
+		}
+		p := vpPath("f"+id, depth, mc)
 		for _, o := range fs {
 			zzvp.Assume(o.path != p && !vpHasDirPrefix(p, o.path) && !vpHasDirPrefix(o.path, p))
 		}
-		c := zzvp.Bytes("c"+id, zzvp.Choose(maxContent+1), "")
+		cl := maxContent
+		if zzvp.Param("contentfixed", 0) == 0 {
+			cl = zzvp.Choose(maxContent + 1) // lengths 0..maxContent; with contentfixed=1 exactly maxContent bytes
+		}
+		c := zzvp.Bytes("c"+id, cl, "")
 		zzvp.WriteFile(zzvp.Root()+"/"+p, c)
 		fs = append(fs, vpFile{p, c})
 	}
